@@ -19,7 +19,7 @@ def run(chk, tier):
                 'registered at its position and that arm calls that function; a default-impl arm exactly when it is provided; every other '
                 'continuation is reported, never answered with a made-up value.')
     X.check_traits(chk, tier, chk.seed, {'C07'})
-    for cfg in configs(tier, thorough=('std', 'mocks', 'nostd-spin')):
+    for cfg in configs(tier, thorough=('std', 'mocks', 'nostd-spin', 'nostd')):
         F = load(chk, cfg)
         fn, paths, rows = E.eval_dyn_table(chk, F, 'R07.1', cfg)
         E.counting_discipline(chk, F, 'R07.1.count', cfg, fn, rows)
